@@ -267,7 +267,7 @@ class SymInt(int):
         return self._text()
 
     def __repr__(self):
-        return self._text()
+        return self._text() if CUR is not None else f"SymInt({self.name})"
 
 
 def sym_int(name: str) -> SymInt:
@@ -422,3 +422,36 @@ def assume(cond):
     if not c.sat(cond):
         raise Infeasible()
     c.pc.append(cond)
+
+
+class HexStr(Name):
+    """hexadecimal address text: category 'hex0x' = "0x" + digits, 'hex' = digits ([0-9a-f]+)"""
+
+    def __new__(cls, ident: str, with_0x: bool):
+        o = Name.__new__(cls, ident, "hex0x" if with_0x else "hex")
+        o.with_0x = with_0x
+        return o
+
+    def startswith(self, p, *a):
+        if p == "0x" and not a:
+            return self.with_0x
+        raise Unsupported("HexStr.startswith form")
+
+    def __contains__(self, x):
+        if isinstance(x, str) and len(x) == 1 and x not in "0123456789abcdefx":
+            return False
+        raise Unsupported("HexStr.__contains__ form")
+
+    def __getitem__(self, k):
+        if isinstance(k, slice) and k.start == 2 and k.stop is None and k.step is None and self.with_0x:
+            return HexStem(self.ident, "stem")
+        raise Unsupported("HexStr.__getitem__ form")
+
+
+class StarOperand(Name):
+    """operand text of an indirect branch: begins with '*'"""
+
+    def __contains__(self, x):
+        if x == "*":
+            return True
+        raise Unsupported("StarOperand.__contains__ form")
